@@ -4,7 +4,7 @@ import json
 def run(ctx):
     ctx.tlc_mc("MC_Kernels", "MC_Kernels.cfg", workers=1, coverage=False, timeout=900)
     # concurrent column grouping: every intersection graph on N columns x every interleaving of check / union
-    ctx.tlc_mc("MC_GroupCols", "MC_GroupCols.thorough.cfg" if ctx.thorough else "MC_GroupCols.quick.cfg", workers=8, timeout=1700)
+    ctx.tlc_mc("MC_GroupCols", "MC_GroupCols.thorough.cfg" if ctx.thorough else "MC_GroupCols.quick.cfg", workers=8, timeout=1700, coverage=True)
     trace = ctx.path("trace.ndjson")
     summ, _, _ = ctx.yv("c12", "record", "--seed", ctx.seed, "--tier", ctx.tier, "--out", trace, timeout=1800)
     rec = summ["record"]
